@@ -20,3 +20,13 @@ func init() {
 		stubEffectTable[n] = allocOnly
 	}
 }
+
+// payload(i): the pointer an interface value wraps (uninterpreted; fixed at MakeInterface).
+func (x *Exec) payload(iface *Term) *Term {
+	q := "payload"
+	if _, ok := x.vc.declared[q]; !ok {
+		x.vc.declared[q] = SInt
+		x.vc.items = append(x.vc.items, Item{Kind: "declfun", Name: q, Raw: "(declare-fun payload (Int) Int)"})
+	}
+	return App(q, SInt, iface)
+}
